@@ -158,7 +158,8 @@ static inline int is_whitespace(char c)
 static int consume_int(const char *str, uint32_t *p_index, int *p_val)
 {
     uint32_t index = *p_index;
-    int val = 0, val_sign = 1;
+    int64_t val = 0;
+    int val_sign = 1;
     char flag = 'n';
     while (1) {
         char c = *(str + index);
@@ -175,11 +176,19 @@ static int consume_int(const char *str, uint32_t *p_index, int *p_val)
             /* Value. */
             flag = 'v';
             val = val * 10 + (int)(c - '0');
+            if (val > (int64_t)INT_MAX + 1) {
+                /* Failed. The value does not fit in int. */
+                return 0;
+            }
         } else {
             /* Encounters a symbol. */
             if (flag == 'v') {
+                if (val_sign > 0 && val > (int64_t)INT_MAX) {
+                    /* Failed. The value does not fit in int. */
+                    return 0;
+                }
                 /* Succeeded. */
-                *p_val = val * val_sign;
+                *p_val = (int)(val * val_sign);
                 *p_index = index;
                 return 1;
             } else {
